@@ -51,15 +51,17 @@ PROP = dict(
                  "Config.Reload calls its callbacks synchronously when the files changed (harness double)", "monitor jitter stays within 0.9..1.1 of the interval"],
     stages=[
         dict(kind="walk", name="bus", module="PubSub", pkg="pubsub", test="TestVerifCX1Bus", harness=_HB,
-             alternatives=_alts(("bus_q", "bus_t")), budget={"quick": 5, "thorough": 50}, maxwalk=40),
+             alternatives=_alts(("bus_q", "bus_t")), budget={"quick": 5, "thorough": 40}, maxwalk=40),
         dict(kind="walk", name="watcher", module="PubSub", pkg="internal/configwatcher", test="TestVerifCX1Watcher", harness=_HW,
              alternatives=_alts(("cw_q", "cw_t"), dead=False), budget={"quick": 4, "thorough": 30}, maxwalk=40),
         dict(kind="walk", name="watcher-stop", module="PubSub", pkg="internal/configwatcher", test="TestVerifCX1Watcher", harness=_HW, tiers=("thorough",),
              alternatives=_alts(("cwstop_t", "cwstop_t")), budget={"thorough": 20}, maxwalk=40),
         dict(kind="trace", name="TracePubSub", module="TracePubSub", cfg=["TracePubSub_ideal.cfg", "TracePubSub_code.cfg"], pkg="pubsub",
              test="TestVerifCX1Trace", harness=_HT, race=True, race_oracle=True),
-        _tlc("step-code", {"quick": "MC_PubSub_step_code_q.cfg", "thorough": "MC_PubSub_step_code_t.cfg"}, tiers=("quick", "thorough")),
-        _tlc("step-ideal", {"quick": "MC_PubSub_step_ideal_q.cfg", "thorough": "MC_PubSub_step_ideal_t.cfg"}),
+        _tlc("step-code-2pub", "MC_PubSub_step_code_q.cfg"),      # two concurrent publishers, one slot
+        _tlc("step-ideal-2pub", "MC_PubSub_step_ideal_q.cfg"),
+        _tlc("step-code", "MC_PubSub_step_code_t.cfg"),           # one publisher, two slots, two topics
+        _tlc("step-ideal", "MC_PubSub_step_ideal_t.cfg"),
         _tlc("bus-mc", "MC_PubSub_bus_mc.cfg"),
         _tlc("bus-ideal-mc", "MC_PubSub_bus_ideal_mc.cfg"),
         _tlc("watcher-mc", "MC_PubSub_cw_mc.cfg"),
